@@ -52,6 +52,7 @@ type Op struct {
 	Ops    []Op    `json:"ops,omitempty"`   // for Kind "par"
 	Sched  []Token `json:"sched,omitempty"` // for Kind "par": imposed schedule ("free" mode if Gate false)
 	Gate   bool    `json:"gate,omitempty"`
+	KillAfterUs int `json:"kill_after_us,omitempty"` // remote mode: SIGKILL the binary this many microseconds after the request was sent
 	N      int     `json:"n,omitempty"` // for Kind "scatter": batch size
 	P      int     `json:"p,omitempty"` // for Kind "scatter": GOMAXPROCS
 }
@@ -541,7 +542,7 @@ func (r *Runner) runSign(ctx context.Context, st *Stack, b *Base, op Op) {
 			req.Id = &pb.SignBeaconAttestationRequest_Account{Account: er.name}
 		}
 		req = roundTrip(req, &pb.SignBeaconAttestationRequest{})
-		res, err := st.SignerH.SignBeaconAttestation(ctx, req)
+		res, err := st.Sig.SignBeaconAttestation(ctx, req)
 		if err != nil {
 			states = append(states, "ERROR")
 			sigs = append(sigs, nil)
@@ -562,7 +563,7 @@ func (r *Runner) runSign(ctx context.Context, st *Stack, b *Base, op Op) {
 			}
 		}
 		req = roundTrip(req, &pb.SignBeaconAttestationsRequest{})
-		res, err := st.SignerH.SignBeaconAttestations(ctx, req)
+		res, err := st.Sig.SignBeaconAttestations(ctx, req)
 		if err != nil {
 			states = append(states, "ERROR")
 			sigs = append(sigs, nil)
@@ -584,7 +585,7 @@ func (r *Runner) runSign(ctx context.Context, st *Stack, b *Base, op Op) {
 			req.Id = &pb.SignBeaconProposalRequest_Account{Account: er.name}
 		}
 		req = roundTrip(req, &pb.SignBeaconProposalRequest{})
-		res, err := st.SignerH.SignBeaconProposal(ctx, req)
+		res, err := st.Sig.SignBeaconProposal(ctx, req)
 		if err != nil {
 			states = append(states, "ERROR")
 			sigs = append(sigs, nil)
@@ -602,7 +603,7 @@ func (r *Runner) runSign(ctx context.Context, st *Stack, b *Base, op Op) {
 			req.Id = &pb.SignRequest_Account{Account: er.name}
 		}
 		req = roundTrip(req, &pb.SignRequest{})
-		res, err := st.SignerH.Sign(ctx, req)
+		res, err := st.Sig.Sign(ctx, req)
 		if err != nil {
 			states = append(states, "ERROR")
 			sigs = append(sigs, nil)
@@ -623,7 +624,7 @@ func (r *Runner) runSign(ctx context.Context, st *Stack, b *Base, op Op) {
 			req.Requests = append(req.Requests, q)
 		}
 		req = roundTrip(req, &pb.MultisignRequest{})
-		res, err := st.SignerH.Multisign(ctx, req)
+		res, err := st.Sig.Multisign(ctx, req)
 		if err != nil {
 			states = append(states, "ERROR")
 			sigs = append(sigs, nil)
